@@ -119,6 +119,20 @@ def _eval_single(cases):
         A, Bc = _mk(case)
         if 'pyarg' in case:
             Bc = None if case['pyarg'] == 'none' else int(case['pyarg'])
+        elif case.get('bc_dtype') or case.get('bc_layout'):
+            # the same element handed over in another dtype (converted by get_structuring_elem) and/or memory layout
+            # (copied by get_structuring_elem when not C-contiguous): the answer may not depend on either
+            B2 = Bc
+            bd = case.get('bc_dtype')
+            if bd:
+                try:
+                    C = Bc.astype(object).astype(bd)
+                    if np.array_equal(C.astype(object), Bc.astype(object)) and np.array_equal(
+                            np.asanyarray(C, A.dtype).astype(object), Bc.astype(object)):
+                        B2 = C
+                except (OverflowError, ValueError, TypeError):
+                    pass
+            Bc = gen.relayout(B2, case.get('bc_layout') or 'C')
         prepared.append((A, Bc, gen.relayout(A, case.get('layout', 'C'))))
     lines = [_line(c, _flags(p[2])) for c, p in zip(cases, prepared)]
     drvs = core.drive(lines)
@@ -384,6 +398,11 @@ def cases(rng, tier):
                  layout=rng.choice(gen.LAYOUTS))
         if pyarg is not None:
             c['pyarg'] = pyarg
+        else:
+            if rng.random() < 0.25:
+                c['bc_dtype'] = rng.choice(['int64', 'uint8', 'int32', 'bool', 'float64'])
+            if rng.random() < 0.25:
+                c['bc_layout'] = rng.choice(['F', 'strided', 'negstride', 'transposed', 'readonly'])
         out.append(c)
     out.extend(_getse_cases(rng, tier))
     return out
